@@ -90,6 +90,19 @@ CLAIMS = {
             "numeric timing statements and are not decided by this family.",
             "Trusted: handlers atomic (checked).",
             "DESIGN.md §5 C13"),
+    "C14": ("CFG must-order + path enumeration over the read/compaction/flush/transaction code of the storage engines (newest-first lookup, publish-before-retire, live-iteration, tombstone retention, commit conflict guards)",
+            "Decides the structural clauses: lookups consult memtable → immutables (newest first) → levels in order and stop at the first hit incl. tombstones; "
+            "compaction/flush publish their output before retiring inputs with no suspension in between; no suspension while iterating a live container; "
+            "tombstones are dropped only at the bottom level; commit validates before applying; B-tree/KV delete and put are siblings. "
+            "Does not decide that arbitrary interleavings of operations yield the model map (behavioural).",
+            "Trusted: handlers atomic (checked).",
+            "DESIGN.md §5 C14"),
+    "C15": ("CFG must-order over WAL append / LSM put, delete, flush, crash, recover (sync-before-durable, write-ahead, bound-before-suspension, crash-epoch check) + filter-predicate tables",
+            "Decides the ordering clauses: an entry is declared durable only after its own sync suspension and under the policy; crash keeps exactly sequence <= synced_up_to; "
+            "truncate removes only a prefix whose bound was fixed before the flush suspended and excludes in-flight appends; a flush suspended across a crash does nothing; "
+            "recovery replays in sequence order through the overwrite-only put. Does not enumerate crash points dynamically.",
+            "Trusted: WAL latencies constant per log; handlers atomic (checked).",
+            "DESIGN.md §5 C15"),
 }
 
 NOT_YET = "rule pack not built yet in this session (see DESIGN.md §11); no check is claimed for it"
